@@ -2,7 +2,13 @@
 """Regenerates /verif/MANIFEST.json from tools/checks.json (the per-property table)."""
 import json, os, subprocess
 home = os.path.dirname(os.path.dirname(os.path.abspath(__file__)))
-tab = json.load(open(os.path.join(home, 'tools', 'checks.json')))
+tab = json.load(open(os.path.join(home, 'tools', 'manifest_base.json')))
+tab['checks'] = {}
+for f in sorted(os.listdir(os.path.join(home, 'tools', 'checks.d'))):
+    tab['checks'][f[:-5]] = json.load(open(os.path.join(home, 'tools', 'checks.d', f)))
+# engines: serves_properties is derived from the checks
+for e in tab['engines']:
+    e['serves_properties'] = sorted(k for k, v in tab['checks'].items() if v['engine'] == e['name'] or e['name'] in v.get('also_engines', []))
 props = [json.loads(l) for l in open(os.path.join(home, 'properties.jsonl'))]
 ids = [p['id'] for p in props]
 checks, na = [], []
